@@ -473,6 +473,24 @@ def closure_and_bound(facts, res, fns):
                     decl = [v for v in walk(body) if v.get("k") == "VarDecl" and v.get("name") == pname]
                     init_ok = bool(decl) and kids(decl[0]) and fm.origin(kids(decl[0])[0]) in ("-1",)
                     ok = sets == [val] and init_ok
+                    if ok:
+                        # the reference value must be fresh at every level: the last index of level L+1's parents says nothing about level L,
+                        # and a stale value equal to the first parent of the next level drops that parent (and with it the whole level above a lone cell)
+                        lbody = lvl[0]["c"][3]
+                        chain = set(id(a_) for a_ in tbf.ancestors(c))
+                        fresh = any(x is decl[0] for x in walk(lbody))
+                        if not fresh:
+                            for x in walk(lbody):
+                                if x.get("k") == "BinaryOperator" and x.get("op") == "=" and strip(kids(x)[0]).get("k") == "DeclRefExpr" and strip(kids(x)[0]).get("did") == decl[0]["did"] \
+                                        and fm.origin(kids(x)[1]) == "-1" and x["l"][1] < grp_loops[0]["l"][1]:
+                                    up = [a_ for a_ in tbf.ancestors(x) if a_.get("k") in ("IfStmt", "ForStmt", "WhileStmt", "CXXForRangeStmt", "DoStmt", "SwitchStmt")]
+                                    if all(id(a_) in chain for a_ in up):
+                                        fresh = True
+                        res.instance(R4, "%s dedupe reference fresh per level@%d" % (fn["qname"], decl[0]["l"][1]), facts.loc(decl[0]), "declared or reset to the sentinel inside the level loop: %s" % fresh)
+                        if not fresh:
+                            res.violation(R4, tbf.rel(facts.path_of(decl[0])), fn["qname"], "dedupe-stale@%s" % pname, decl[0]["l"][1],
+                                          "the value `%s` that parents are de-duplicated against is initialised once, outside the level loop, and never reset: at the start of level L it still holds the last "
+                                          "parent index of level L+1, so a first parent with that index is dropped (a level made of one cell of index 0 empties every level above it)" % pname)
             res.instance(R4, "%s dedupe@%d" % (fn["qname"], g["l"][1]), facts.loc(g), gt[:140])
             if not ok:
                 res.violation(R4, tbf.rel(facts.path_of(g)), fn["qname"], "dedupe@%d" % g["l"][1], g["l"][1],
@@ -726,7 +744,7 @@ def run(res, tier):
     ctors = [c for c in ctor_of(facts, "TbfTree", 2)]
     if len(ctors) != 1:
         raise AnalysisBroken("TbfTree: %d particle-taking constructors" % len(ctors))
-    fns = [ctors[0], method(facts, "TbfTree", "rebuild")]
+    fns = [tbf.expand_member_helpers(facts, ctors[0]), tbf.expand_member_helpers(facts, method(facts, "TbfTree", "rebuild"))]
     header_content(facts, res)
     flush_discipline(facts, res, fns)
     closure_and_bound(facts, res, fns)
